@@ -7,7 +7,7 @@ A, B = "old(iv(input1))", "old(iv(input2))"
 FA, FB = "old(fv(input1))", "old(fv(input2))"
 MIN = "-9223372036854775808"
 
-w("//@ properties C07")
+w("//@ properties C07 C08")
 w("//@ spec func pII(a, b *mlrval.Mlrval) bool { return mlrval.IsIntVal(a) && mlrval.IsIntVal(b) }")
 w("//@ spec func pIF(a, b *mlrval.Mlrval) bool { return mlrval.IsIntVal(a) && mlrval.IsFloatVal(b) }")
 w("//@ spec func pFI(a, b *mlrval.Mlrval) bool { return mlrval.IsFloatVal(a) && mlrval.IsIntVal(b) }")
@@ -20,6 +20,8 @@ w()
 def fn(name, req, ens, enc="bv", extra=()):
     w(f"//@ func {name}")
     w(f"//@ encoding {enc}")
+    if name.startswith(("min_i","max_i")): extra = tuple(extra) + ("class pick2 num2",)
+    elif not name.startswith(("uneg","bitwise_not","bitcount","BIF")): extra = tuple(extra) + ("class num2",)
     w(f"//@ requires {req}")
     w("//@ modifies nothing")
     for e in ens: w(f"//@ ensures {e}")
@@ -32,7 +34,12 @@ for name, fits, op in (("plus_n_ii","addFits","+"),("minus_n_ii","subFits","-"),
         f"imp({fits}({A}, {B}), isI(result, {A} {op} {B}))",
         f"imp(!{fits}({A}, {B}), mlrval.IsFloatVal(result))",
         f"imp(mlrval.IsFloatVal(result), sameFloat(mlrval.VFloat(result), float64({A}) {op} float64({B})))",
-    ])
+    ] + ([
+        # the mechanism named by the property's anchor: an int result means the double-precision
+        # product did not exceed the largest double below 2^63 (the general "never wrapped" clause
+        # is post.2, a known finding; FP multiplication bounds are beyond the solvers' reach)
+        f"imp(mlrval.IsIntVal(result), !(fabs(float64({A}) * float64({B})) > 9223372036854774784.0))",
+    ] if name == "times_n_ii" else []))
 # mixed kernels: one IEEE operation on converted operands
 ops = {"plus":"+","minus":"-","times":"*","divide":"/","dotplus":"+","dotminus":"-","dottimes":"*","dotdivide":"/"}
 for base, op in ops.items():
